@@ -26,6 +26,7 @@ import (
 	"os/exec"
 	"path/filepath"
 	"strings"
+	"time"
 
 	"github.com/notaryproject/notation-go/internal/io"
 	"github.com/notaryproject/notation-go/internal/slices"
@@ -36,6 +37,10 @@ import (
 
 // maxPluginOutputSize is the maximum size of the plugin output.
 const maxPluginOutputSize = 64 * 1024 * 1024 // 64 MiB
+
+// pluginWaitDelay bounds the time spent waiting for the plugin's output pipes
+// to be closed once the plugin process has exited or its context is done.
+const pluginWaitDelay = 2 * time.Second
 
 var executor commander = &execCommander{} // for unit test
 
@@ -230,6 +235,9 @@ func (c execCommander) Output(ctx context.Context, name string, command plugin.C
 	// bytes written with the expected length of the bytes.
 	cmd.Stderr = io.LimitWriter(&stderr, maxPluginOutputSize)
 	cmd.Stdout = io.LimitWriter(&stdout, maxPluginOutputSize)
+	// do not wait forever for the output pipes: a descendant of the plugin
+	// process may keep them open after the plugin exited or was killed
+	cmd.WaitDelay = pluginWaitDelay
 	err := cmd.Run()
 	if err != nil {
 		if errors.Is(ctx.Err(), context.DeadlineExceeded) {
